@@ -11,14 +11,14 @@ CLAIMS = {
          "node Eq/Hash over children only; get_or_insert allocates on the Err arm only and files under the looked-up hash; "
          "reviewed direct node constructions; level_swap mutates nodes only while out of the table; all 12 reduce functions "
          "interpreted over their abstract child domain (no redundant node, canonical complement form, level agreement); "
-         "probe-chain accounting of the open-addressing unique table; every F64 terminal constructor normalises its value (one bit pattern per value). Does not decide the 'iff' over histories.",
+         "probe-chain accounting of the open-addressing unique table; level_swap's per-node body interpreted on a model store (E-TABLE.swap: function preserved across the swap for BDD/BCDD/ZBDD, placement, no duplicate, cleanup); the var/level maps stay mutually inverse (E-VLM); every F64 terminal constructor normalises its value (one bit pattern per value). Does not decide the 'iff' over histories.",
          "MIR field/dominance rules + abstract interpretation of HIR reduce tables", "3.8, 3.3, 4 C01"),
  "C15": ("E-DDDMP(.strict,.taint,.deadcheck,.prefix) + E-UNITS + E-LIN: writer/reader agreement as finite constant tables: header key set inclusion, byte-class "
          "coverage of the name sanitisers vs the reader's separators (all 256 bytes), escape table and binary node-code layout "
          "mutually inverse (exhaustive); var/level unit discipline of the exporter/importer; no edge leaked on importer error "
          "paths; MIR taint analysis of the importer: no number decoded from the file reaches an index, subtraction or allocation size "
          "without a dominating range check or checked/clamping operation; id-list sortedness checks are strict; no overflow check relies "
-         "on checked_shl; prefix tests have the file buffer as receiver. Tables addressed by manager levels are sized by the manager, not by the file (E-UNITS.sized). Round-trip equality and totality beyond these sinks are not decided.",
+         "on checked_shl; prefix tests have the file buffer as receiver. Tables addressed by manager levels are sized by the manager, not by the file (E-UNITS.sized). The exporter prints variable numbers under .ids and level numbers under .permids (E-DDDMP.fields), numbers levels bottom-up with node ids from 1 and support-variable indices pre-decremented (E-DDDMP.numbering). Round-trip equality and totality beyond these sinks are not decided.",
          "constant-table extraction from HIR + exhaustive evaluation; unit analysis", "3.9, 4 C15"),
  "C19": ("E-FFI + E-LIN + E-UNITS on oxidd-ffi-c: C symbol <-> Rust operation wiring and operand order, equal export sets of the "
          "three files, from_raw only under ManuallyDrop::new (borrow) or drop (unref), no entry point but the documented one "
@@ -30,17 +30,17 @@ CLAIMS = {
          "HIR/MIR who-may-call and typestate rules", "3.7, 4 C19"),
  "C16": ("E-VNM(.lockstep,.clone) + E-EVENT + E-UNITS: the name map's push/insert, displace/remove and free discipline on every path; the "
          "add_vars* brackets of both managers incl. the scope guard that keeps level table, var/level map and name map the same "
-         "length on every exit; add_named appends exactly one name per variable number drawn; Clone allocates fresh strings. The "
+         "length on every exit; add_named appends exactly one name per variable number drawn; Clone allocates fresh strings. set_var_name rejects a present name exactly when another variable owns it (E-VNM.dup) and removes a displaced name exactly when non-empty; the index's key type compares and hashes by content (E-VNM.key); the var/level maps are extended with the identity and stay mutually inverse (E-VLM). The "
          "bijection over call sequences as behaviour is not decided.",
          "MIR dominance / provenance rules", "3.8, 3.5, 4 C16"),
  "C20": ("E-CFG: the configuration corners are type-checked under the fact extractor (quick: default + 3 extreme corners, "
          "thorough: all 8) and E-LIN/E-WRAP (+E-CACHE/E-EVENT where a cache exists) are re-run on each; sibling agreement of the two "
-         "node types (ARITY constant, method bodies) and NoApplyCache = constant miss. Observational equivalence of results is not "
+         "node types (ARITY constant, method bodies) and NoApplyCache = constant miss. The worker-count dependent reordering path: E-PERM (+ .blocked, .acquire, .relabel); the two managers' VarLevelMap copies are the same program (E-VLM); MT function types forward to the sequential ones (E-WRAP.delegate). Observational equivalence of results is not "
          "decided.", "type-checking the feature matrix + sibling comparison of HIR", "3.9, 4 C20"),
  "C17": ("E-RAW on linear_hashtbl::raw: inventory of writers of the free-slot counter, +1/-1 pairing with status stores, "
          "provenance of retain's successor-is-free flag, Drain's full sweep, counter assignment when the slot array is replaced, "
          "probe-loop guards, Slot::clone keeps the status word, remove frees a slot only next to a FREE successor, lookups "
-         "answer absent only on a FREE slot. Necessary conditions of `free <= #FREE slots` (termination of lookups, intact probe chains); set "
+         "answer absent only on a FREE slot. The successor tested by remove is the cyclic one; reserve_rehash rebuilds the array on every path, assigns free = new_cap - len and all probes advance by one slot modulo the size (E-RAW.rehash); the element counts move in the reviewed direction in each of their 13 writers (E-RAW.len). Necessary conditions of `free <= #FREE slots` (termination of lookups, intact probe chains); set "
          "semantics over operation sequences is not decided.",
          "MIR dataflow/dominance rules with a frozen writer table", "3.8, 4 C17"),
  "C02": ("E-TABLE.{bdd,bcdd,shortcut,step} + E-WRAP + E-UNITS + E-CACHE + E-TABLE.cof + E-EVAL: the terminal/base-case table of all 8 BDD connectives and "
@@ -66,7 +66,7 @@ CLAIMS = {
          "shared store by move only; level_swap releases a node's edges before unlinking children; frozen caller sets of the "
          "node-removal primitives and their gates; Manager::gc sweeps all inner-node levels before the terminal table; the apply cache (uncounted edges) stays locked and empty "
          "between pre_gc and post_gc; node-count bookkeeping (failed allocation undone, adjusted delta stored) and the terminal "
-         "free list written back after a sweep; every removal of a node from a unique table reaches the release of the removed edge on all non-unwind paths (E-LIN.forget); every function that builds an owned edge out of a raw id/pointer is inventoried and the copying ones increment a count on every path first (E-LIN.mint). Necessary conditions of exact reference counts: no owned edge is dropped by the "
+         "free list written back after a sweep; every removal of a node from a unique table reaches the release of the removed edge on all non-unwind paths (E-LIN.forget); every function that builds an owned edge out of a raw id/pointer is inventoried and the copying ones increment a count on every path first (E-LIN.mint). Free thresholds of reference counts are the 11 reviewed comparisons (E-LIN.rcconst); session-end hand-over and the allocation mark (E-FREELIST.handover/.mark); level_swap removes dead old children exactly once (E-TABLE.swap). Necessary conditions of exact reference counts: no owned edge is dropped by the "
          "compiler instead of being released through the manager, on any path incl. every `?`/out-of-memory path; no slot is on two "
          "free lists. Exactness over histories is not decided.",
          "MIR drop-terminator typestate lint (rustc_private driver) + move-only dataflow + who-may-call", "3.1, 3.8, 3.5, 4 C05"),
@@ -75,7 +75,7 @@ CLAIMS = {
          "vs positions; all 12 reduce functions interpreted (no redundant node, BCDD then-edge untagged, node inserted at the level "
          "it is created for); set_child before insert and relabel before insert in level_swap; only oxidd-reorder may call the "
          "level-invariant-breaking primitives; probe-chain integrity of the per-level open-addressing table (a cut chain "
-         "yields a second node with identical children); the loop invariant of set_var_order's level-permutation step. Necessary for 'every node is listed in the level it reports' and 'children on lower levels' after a "
+         "yields a second node with identical children); the loop invariant of set_var_order's level-permutation step. E-TABLE.swap (level_swap's per-node body: relabelling, placement in the right level table, children from the new lower level or the old upper level) and E-VLM (var/level maps mutually inverse). Necessary for 'every node is listed in the level it reports' and 'children on lower levels' after a "
          "reordering; does not decide uniqueness/reducedness over histories.",
          "dimension (unit) analysis over type-checked HIR + HIR table interpretation + who-may-call", "3.10, 3.3, 3.5, 4 C03"),
  "C06": ("E-CACHE + E-CACHE.dm + E-CACHE.substid + E-EVENT + E-WHO + E-TABLE tags: get/add key pairing, memoised value = returned value, injective and "
@@ -91,7 +91,7 @@ CLAIMS = {
          "(terminal base cases, count(node) = (count(c0)+count(c1)) >> 1 over the cofactors seen through the complement tag, "
          "memoisation under the looked-up key, distinct keys for an edge and its complement); E-CARRY: no computed carry of "
          "Natural's multi-digit addition is overwritten unread; subtractions involving sat_count_edge's `vars` are guarded and no "
-         "number type uses checked_shl as an overflow test; SatCountCache::map is touched by its owner and sat_count_edge::inner only. "
+         "number type uses checked_shl as an overflow test; SatCountCache::map is touched by its owner and sat_count_edge::inner only. Natural's unnormalised digit view is read only by the two reviewed functions (E-NUM.rawview); the substrate rules (live nodes, fresh caches, var/level maps) apply. "
          "The exactness of the number types beyond that is not decided.",
          "HIR interpretation with symbolic numbers + MIR path enumeration / liveness", "3.5, 3.11, 4 C12"),
  "C07": ("E-LOCK + E-FREELIST + E-CACHE.dm + E-EVENT + E-PERM.blocked + E-DBG (+E-LIN/E-WRAP on the parallel code): lock-order acyclicity over all lock classes, "
@@ -100,7 +100,7 @@ CLAIMS = {
          "gc, the gc bracket (try_lock, epoch bump, pre_gc, level sweeps, terminal sweep, post_gc, unlock) on every path of both "
          "managers, cache-entry guards created only after their lock was acquired, the position-blocking protocol of the concurrent "
          "bubble sort (typestate analysis along all 24 paths of the worker's swap loop), no side effect inside a debug assertion, "
-         "MT wrappers reach the same algorithm instances. These are necessary conditions (no deadlock by lock order, the "
+         "MT wrappers reach the same algorithm instances. The slot array's allocation mark is written by get_slot_from_shared only and only grows (E-FREELIST.mark: two threads never receive the same chunk); a position of the concurrent bubble sort is taken only when not blocked (E-PERM.acquire); reference-count free thresholds are the reviewed ones (E-LIN.rcconst); the MT function types forward non-recursive operations to the sequential ones (E-WRAP.delegate). These are necessary conditions (no deadlock by lock order, the "
          "stated happens-before edges exist); equivalence to a sequential execution over schedules is NOT decided.",
          "lock-order graph + atomic-ordering table + MIR dataflow rules", "3.6, 4 C07"),
  "C08": ("E-UNITS.pre + E-UNITS + E-LIN + E-CANON.swap + E-WHO + E-PERM(.blocked) + E-TABLE.skip + E-EVENT on oxidd-reorder: level_swap's stale-number discipline (compare stored numbers with "
@@ -109,13 +109,13 @@ CLAIMS = {
          "only, gated entry points; the level-permutation loop of set_var_order_common advances only on the element-in-place edge "
          "(loop invariant) and swaps its three tables together; DiagramRules::skipped_cofactor of every kind agrees with the kind's "
          "semantics of a skipped level (zero-suppressed for ZBDDs) and level_swap uses it; Manager::reorder brackets the closure "
-         "and bumps the gc epoch on every path; the parallel relabelling pass builds its work list from level positions, not from stale numbers (E-PERM.relabel). Does not decide that functions are preserved.",
+         "and bumps the gc epoch on every path; the parallel relabelling pass builds its work list from level positions, not from stale numbers (E-PERM.relabel). E-TABLE.swap: the per-node body of level_swap interpreted on a model store (86 situations: the node denotes the same function before and after under the kind's skipped-level semantics; placement; reuse of an equal node; cleanup); E-PERM.acquire (a position is taken only when not blocked); E-VLM; E-RAW; E-TAUT. Does not decide that functions are preserved.",
          "dimension (unit) analysis over HIR + MIR drop lint + ordering/who-may-call rules", "3.10, 3.1, 3.8, 3.5, 4 C08"),
  "C13": ("E-TABLE.pick + E-UNITS + E-POST.mapusers: one step of pick_cube_edge / pick_cube_dd_edge / pick_cube_dd_set_edge (BDD and BCDD) interpreted over a "
          "structured abstract node: a forced branch (one child = false) is taken without consulting the choice, otherwise the choice "
          "/ the literal's polarity decides exactly once, the literal-set cursor advances past skipped literals; pick_cube's "
          "level->variable conversions carry the declared units; pick_cube_edge writes the cube entry of level_to_var(level) with the "
-         "branch taken; the count cache that weights pick_cube_uniform is read through sat_count_edge only. The ZBDD pick_cube_edge / pick_cube_dd_edge steps are interpreted likewise (don't care, forced, chosen; zero-suppressed result shape). Does not decide that the "
+         "branch taken; the count cache that weights pick_cube_uniform is read through sat_count_edge only. The ZBDD pick_cube_edge / pick_cube_dd_edge steps are interpreted likewise (don't care, forced, chosen; zero-suppressed result shape). add_literal_to_cube is interpreted ((+-v) & sub, normal form); the uniform choice is rng < count(then) / (count(then) + count(else)) as a symbolic term (E-TABLE.pick.uniform); the count cache's epoch bumps (E-EVENT). Does not decide that the "
          "cube is an implicant, nor uniformity.",
          "abstract interpretation of HIR + dimension (unit) analysis", "3.3, 3.10, 4 C13"),
  "C14": ("E-LIN + E-OOM + E-FREELIST(.count,.term) + E-EVENT.gc-order + E-DBG: E-LIN restricted to error exits: on every `?`/Err path of the rules crates, oxidd-dump, oxidd-reorder, the managers "
@@ -123,7 +123,7 @@ CLAIMS = {
          "the manager; AllocResult is unwrapped only where allocation cannot fail (static terminals) and process::abort is reached only "
          "from reviewed sites (2 recorded known findings: level_swap and ZBDDCache::post_reorder_mut abort on OOM); gc sweeps terminals "
          "after all levels (one collection frees what a retry needs), a failed allocation does not stay counted, the terminal free "
-         "list is written back after a sweep; the slot allocator reports OutOfMemory only after consulting the shared free lists. Does not decide "
+         "list is written back after a sweep; the slot allocator reports OutOfMemory only after consulting the shared free lists. A session end returns parked free slots unless all three thread-local cells were inspected (E-FREELIST.handover); the allocation mark never moves back (E-FREELIST.mark). Does not decide "
          "state validity after failure.",
          "MIR drop-terminator typestate lint + call-site inventory", "3.1, 3.9, 4 C14"),
  "C09": ("E-WRAP + E-TABLE.{reduce,shortcut,step,skip}(zbdd) + E-UNITS + E-CACHE: the BooleanVecSet wrappers and the Boolean view of ZBDDs "
